@@ -189,8 +189,11 @@ var _ rpc.Resources
 //@   assigns s.direct, s.indirect
 //@   safety[C15]
 
+// (the number of direct subscriptions never goes below zero: whoever gives back a subscription
+// that a denied re-access has already removed gives back nothing)
 //@ func (*wsConn).removeCount
 //@   requires s != nil
+//@   ensures[C08] old(s.direct) >= 0 ==> s.direct >= 0
 //@   ensures[C08] old(s.direct + s.indirect + s.indirectsent) == 0 ==> s.direct == old(s.direct)
 //@   ensures[C08] old(s.direct + s.indirect + s.indirectsent) != 0 && direct ==> s.direct == old(s.direct) - count
 //@   ensures[C08] !direct ==> s.direct == old(s.direct)
